@@ -2,6 +2,7 @@
 CONSTANTS
   Fns = {"wrap"}
   Alphabet = {"w3", "w9", "long", "sp", "sps", "tab", "nl", "blank", "li", "star", "plus", "num", "colon", "quote", "tquote", "bslash"}
+  MinLen = 0
   MaxLen = 3
   Widths = {10, 20, 40, 72}
   Indents = {0, 4, 8}
